@@ -1,5 +1,5 @@
 """C35 — the data recorder persists every entry exactly once (spec/recorder/Recorder.tla, RecorderAbs.tla, RecorderTrace.tla)."""
-import collections, concurrent.futures, glob, json, os, shutil, tempfile
+import collections, concurrent.futures, glob, json, os, tempfile, threading
 from vlib import core, tracecheck
 
 LEVEL = "model_checking"
@@ -25,8 +25,28 @@ PANICS = [("cannot start a transaction within a transaction", "panic_nested_tran
           ("cannot rollback - no transaction is active", "panic_commit_without_transaction"),
           ("database is locked", "panic_database_locked"),
           ("SQLITE_BUSY", "panic_database_locked"),
+          ("is locked", "panic_database_locked"),
+          ("runtime error:", "panic_runtime_error"),
           ("UNIQUE constraint failed", "panic_unique_index_at_close"),
           ("converting argument", "panic_unsupported_value")]
+
+
+LOCK = threading.RLock()
+
+
+class Locked:
+    """Facade of the Check for the phases that run in parallel threads: TLC runs are accounted under a lock."""
+
+    def __init__(self, ck):
+        self.ck = ck
+
+    def run_tlc(self, *a, **kw):
+        r = core.tlc(*a, **kw)
+        with LOCK:
+            self.ck.cov["states"] += r.distinct
+            self.ck.cov["transitions"] += r.generated
+            self.ck.tlc_runs.append(dict(module=a[1], cfg=a[2], **r.summary()))
+        return r
 
 
 def panic_class(msg):
@@ -99,6 +119,20 @@ def interleaved(lines):
 PREDICT = {"ok": "ok", "dropped": "lost_dropped", "unflushed_at_close": "lost_unflushed_at_close", "panic": "panic_nested_transaction"}
 
 
+def pick(ck, cases, quota):
+    """Seeded sample of model behaviours, stratified by (outcome, batch size) so that rare classes are all kept."""
+    groups = collections.defaultdict(list)
+    for c in cases:
+        groups[(c["outcome"], c["batch"])].append(c)
+    out = []
+    todo = sorted(groups.values(), key=len)
+    for i, g in enumerate(todo):
+        ck.rng.shuffle(g)
+        share = max(1, (quota - len(out)) // (len(todo) - i))
+        out += g[:share]
+    return out
+
+
 def gated(ck, label, cases, tables, random_n, shards, retry=0):
     """Run gated cases (+ random_n seeded random schedules) on the real recorder in `shards` parallel driver
     processes, validate the logs with TLC, judge every run."""
@@ -130,7 +164,7 @@ def gated(ck, label, cases, tables, random_n, shards, retry=0):
                     w.write(json.dumps(m) + "\n")
                     events += 1
     logs = read_runs(allpath)
-    v = tracecheck.validate(ck, ["recorder", "common"], "RecorderTrace", cfg, allpath, timeout=3000)
+    v = tracecheck.validate(Locked(ck), ["recorder", "common"], "RecorderTrace", cfg, allpath, timeout=3000)
     if not v.accepted:
         raise core.Broken("%s: TLC could not read the gated log to its end (matched %s, next %s, invariant %s) — on a log of the real code "
                           "that conforms to the model every model invariant must hold" % (label, v.matched, v.next, v.invariant))
@@ -138,49 +172,50 @@ def gated(ck, label, cases, tables, random_n, shards, retry=0):
     if set(tl) != set(results):
         raise core.Broken("%s: TLC judged %d runs, the harness made %d" % (label, len(tl), len(results)))
     stats = collections.Counter()
-    for run, r in sorted(results.items()):
-        c, lines = tl[run], logs[run]
-        go_ok = (not r["crashed"]) and not r.get("hang") and not r.get("close_err") and r["verdict"]["ok"]
-        if go_ok != c["persisted"] and not (c["persisted"] and r["verdict"]["symptom"] in ("field_changed", "reader_panic", "read_error")):
-            raise core.Broken("%s run %s: harness verdict %s but TLC (RecorderAbs on the real rows) says persisted=%s" % (label, run, r["verdict"], c["persisted"]))
-        ck.cov["traces_validated_against_impl"] += 1
-        stats["runs"] += 1
-        stats["conforming"] += bool(c["conf"])
-        stats["blocked_on_mutex"] += r.get("blocked", 0)
-        nontriv = interleaved(lines)
-        ck.cov["distinct_nontrivial"] += nontriv
-        stats["interleaved"] += nontriv
-        if r.get("outcome"):
-            stats["schedule_followed" if r["followed"] else "schedule_infeasible"] += 1
-        if r.get("hang"):
-            symptom = "hang"
-        elif r["crashed"]:
-            symptom = panic_class(r.get("panic_msg"))
-        elif r.get("close_err"):
-            symptom = "close_error"
-        elif go_ok:
-            symptom = "ok"
-        elif r["verdict"]["symptom"] == "missing":
-            symptom = "lost" if not c["conf"] else ("lost_unflushed_at_close" if set(c["missing"]) <= set(c["unflushed"]) else "lost_dropped")
-        else:
-            symptom = r["verdict"]["symptom"]
-        stats["outcome:" + symptom] += 1
-        if r.get("outcome") and r["followed"] and PREDICT.get(r["outcome"]) != symptom:
-            stats["prediction_mismatch"] += 1
-        if symptom == "ok":
-            continue
-        key = {"mode": "gated", "model": "conforms" if c["conf"] else "diverged", "symptom": symptom,
-               "schedule": schedule_class(lines, r["verdict"].get("missing") or [], r["crashed"], r.get("panic_proc"))}
-        desc = ("%s: gated run %s (batch size %s) on the real recorder: %s — %d inserted, missing ids %s, duplicated %s, changed %s, panic %r; "
-                "schedule: %s" % (label, r["name"], r["batch"], symptom, r["verdict"].get("inserted", 0), r["verdict"].get("missing"),
-                                  r["verdict"].get("duplicated"), r["verdict"].get("changed"), r.get("panic_msg"),
-                                  " ".join("%s:%s" % (m["p"], m["l"] + (("(" + str(m["id"]) + ")") if m["l"] == "ins" else "")) for m in lines if m["e"] == "step")))
-        if ck.report(key, desc, {"key": key, "result": r, "tlc": c, "log": lines, "tables": tables}) == "known":
-            stats["known"] += 1
-        if len(ck.cov["samples"]) < 3:
-            ck.sample({label: {"batch": r["batch"], "symptom": symptom, "steps": ["%s:%s" % (m["p"], m["l"]) for m in lines if m["e"] == "step"]}})
-    ck.cov["evaluations"] += events
-    ck.cov.setdefault("gated", {})[label] = dict(stats)
+    with LOCK:
+        for run, r in sorted(results.items()):
+            c, lines = tl[run], logs[run]
+            go_ok = (not r["crashed"]) and not r.get("hang") and not r.get("close_err") and r["verdict"]["ok"]
+            if go_ok != c["persisted"] and not (c["persisted"] and r["verdict"]["symptom"] in ("field_changed", "reader_panic", "read_error")):
+                raise core.Broken("%s run %s: harness verdict %s but TLC (RecorderAbs on the real rows) says persisted=%s" % (label, run, r["verdict"], c["persisted"]))
+            ck.cov["traces_validated_against_impl"] += 1
+            stats["runs"] += 1
+            stats["conforming"] += bool(c["conf"])
+            stats["blocked_on_mutex"] += r.get("blocked", 0)
+            nontriv = interleaved(lines)
+            ck.cov["distinct_nontrivial"] += nontriv
+            stats["interleaved"] += nontriv
+            if r.get("outcome"):
+                stats["schedule_followed" if r["followed"] else "schedule_infeasible"] += 1
+            if r.get("hang"):
+                symptom = "hang"
+            elif r["crashed"]:
+                symptom = panic_class(r.get("panic_msg"))
+            elif r.get("close_err"):
+                symptom = "close_error"
+            elif go_ok:
+                symptom = "ok"
+            elif r["verdict"]["symptom"] == "missing":
+                symptom = "lost" if not c["conf"] else ("lost_unflushed_at_close" if set(c["missing"]) <= set(c["unflushed"]) else "lost_dropped")
+            else:
+                symptom = r["verdict"]["symptom"]
+            stats["outcome:" + symptom] += 1
+            if r.get("outcome") and r["followed"] and PREDICT.get(r["outcome"]) != symptom:
+                stats["prediction_mismatch"] += 1
+            if symptom == "ok":
+                continue
+            key = {"mode": "gated", "model": "conforms" if c["conf"] else "diverged", "symptom": symptom,
+                   "schedule": schedule_class(lines, r["verdict"].get("missing") or [], r["crashed"], r.get("panic_proc"))}
+            desc = ("%s: gated run %s (batch size %s) on the real recorder: %s — %d inserted, missing ids %s, duplicated %s, changed %s, panic %r; "
+                    "schedule: %s" % (label, r["name"], r["batch"], symptom, r["verdict"].get("inserted", 0), r["verdict"].get("missing"),
+                                      r["verdict"].get("duplicated"), r["verdict"].get("changed"), r.get("panic_msg"),
+                                      " ".join("%s:%s" % (m["p"], m["l"] + (("(" + str(m["id"]) + ")") if m["l"] == "ins" else "")) for m in lines if m["e"] == "step")))
+            if ck.report(key, desc, {"key": key, "result": r, "tlc": c, "log": lines, "tables": tables}) == "known":
+                stats["known"] += 1
+            if len(ck.cov["samples"]) < 3:
+                ck.sample({label: {"batch": r["batch"], "symptom": symptom, "steps": ["%s:%s" % (m["p"], m["l"]) for m in lines if m["e"] == "step"]}})
+        ck.cov["evaluations"] += events
+        ck.cov.setdefault("gated", {})[label] = dict(stats)
     ck.note("%s: %s" % (label, dict(stats)))
     return stats
 
@@ -189,89 +224,91 @@ def values(ck, rounds, n):
     binary = get_binary(ck)
     out = core.harness(binary, "values", dict(seed=ck.seed, dir=dbdir(), rounds=rounds, n=n), timeout=1200)
     stats = collections.Counter()
-    for r in out["results"]:
-        if r["rejected"]:
-            stats["shape_rejected_by_CreateTable:" + r["shape"]] += 1
-            continue
-        stats["runs"] += 1
-        ck.cov["traces_validated_against_impl"] += 1
-        ck.cov["evaluations"] += r["entries"]
-        ck.cov["distinct_nontrivial"] += 1
-        if r["crashed"]:
-            symptom = panic_class(r["panic_msg"])
-        else:
-            symptom = r["verdict"]["symptom"]
-        stats[r["class"] + ":" + symptom] += 1
-        if symptom == "ok":
-            if len(ck.cov["samples"]) < 5 and r["shape"] == "wide":
-                ck.sample({"round_trip": {"shape": r["shape"], "batch": r["batch"], "flush_pattern": r["pattern"], "entries": r["entries"], "first": r["sample"]}})
-            continue
-        key = {"mode": "sequential", "shape": r["shape"], "class": r["class"], "symptom": symptom}
-        ck.report(key, "sequential round trip (one goroutine, shape %s, value class %s, batch %s, flush pattern %s, %d entries): %s %s %s; first entry %s" % (
-            r["shape"], r["class"], r["batch"], r["pattern"], r["entries"], symptom, r.get("panic_msg", ""), r["verdict"], r.get("sample")), {"key": key, "result": r})
-    ck.cov["values"] = dict(stats)
+    with LOCK:
+        for r in out["results"]:
+            if r["rejected"]:
+                stats["shape_rejected_by_CreateTable:" + r["shape"]] += 1
+                continue
+            stats["runs"] += 1
+            ck.cov["traces_validated_against_impl"] += 1
+            ck.cov["evaluations"] += r["entries"]
+            ck.cov["distinct_nontrivial"] += 1
+            if r["crashed"]:
+                symptom = panic_class(r["panic_msg"])
+            else:
+                symptom = r["verdict"]["symptom"]
+            stats[r["class"] + ":" + symptom] += 1
+            if symptom == "ok":
+                if len(ck.cov["samples"]) < 5 and r["shape"] == "wide":
+                    ck.sample({"round_trip": {"shape": r["shape"], "batch": r["batch"], "flush_pattern": r["pattern"], "entries": r["entries"], "first": r["sample"]}})
+                continue
+            key = {"mode": "sequential", "shape": r["shape"], "class": r["class"], "symptom": symptom}
+            ck.report(key, "sequential round trip (one goroutine, shape %s, value class %s, batch %s, flush pattern %s, %d entries): %s %s %s; first entry %s" % (
+                r["shape"], r["class"], r["batch"], r["pattern"], r["entries"], symptom, r.get("panic_msg", ""), r["verdict"], r.get("sample")), {"key": key, "result": r})
+        ck.cov["values"] = dict(stats)
     ck.note("values: %s" % dict(stats))
 
 
-def free(ck, label, runs, race=False, single=False, budget=0, max_per=60, tlc_limit=250):
+def free(ck, label, runs, race=False, single_every=0, budget=0, max_per=60, tlc_limit=250):
     binary = get_binary(ck, race=race)
     d = core.scratch("c35f-")
     path = os.path.join(d, "free.ndjson")
     env = {}
     if race:
         env["GORACE"] = "log_path=%s exitcode=0 halt_on_error=0" % os.path.join(d, "race")
-    out = core.harness(binary, "free", dict(seed=ck.seed + (7 if race else 0) + (13 if single else 0), dir=dbdir(), out=path, runs=runs, max_inserters=8,
-                                            max_per_inserter=max_per, single=single, rich=True, tlc_limit=tlc_limit, budget_s=budget), timeout=2400, env=env)
+    out = core.harness(binary, "free", dict(seed=ck.seed + (7 if race else 0), dir=dbdir(), out=path, runs=runs, max_inserters=8, single_every=single_every,
+                                            max_per_inserter=max_per, rich=True, tlc_limit=tlc_limit, budget_s=budget), timeout=2400, env=env)
     tl = {}
     if out["traced"]:
-        v = tracecheck.validate(ck, ["recorder", "common"], "RecorderTrace", "RecorderTrace_abs.cfg", path, timeout=3000)
+        v = tracecheck.validate(Locked(ck), ["recorder", "common"], "RecorderTrace", "RecorderTrace_abs.cfg", path, timeout=3000)
         if not v.accepted:
             raise core.Broken("%s: TLC could not read the log to its end (matched %s, next %s)" % (label, v.matched, v.next))
         tl = {c["run"]: c for c in v.tlc.tagged["CASE"]}
     stats = collections.Counter()
-    for r in out["results"]:
-        go_ok = (not r["crashed"]) and r["verdict"]["ok"]
-        c = tl.get(r["run"])
-        if c is not None:
-            stats["judged_by_tlc"] += 1
-            if go_ok != c["persisted"] and not (c["persisted"] and r["verdict"]["symptom"] in ("field_changed", "location_changed", "reader_panic", "read_error")):
-                raise core.Broken("%s run %s: harness verdict %s but TLC says persisted=%s" % (label, r["run"], r["verdict"], c["persisted"]))
-        stats["runs"] += 1
-        ck.cov["traces_validated_against_impl"] += 1
-        ck.cov["evaluations"] += r["entries"]
-        nontriv = r["inserters"] >= 2 or r["flushes"] >= 2
-        ck.cov["distinct_nontrivial"] += nontriv
-        stats["overlapping" if r["overlap"] else "not_overlapping"] += 1
-        if r["crashed"]:
-            symptom = panic_class(r["panic_msg"])
-        elif go_ok:
-            symptom = "ok"
-        elif r["verdict"]["symptom"] == "missing":
-            symptom = "lost"
-        else:
-            symptom = r["verdict"]["symptom"]
-        stats["outcome:" + symptom] += 1
-        if symptom == "ok":
-            if len(ck.cov["samples"]) < 6 and r["inserters"] >= 2:
-                ck.sample({label: {k: r[k] for k in ("inserters", "flusher", "batch", "procs", "entries", "flushes", "overlap", "sample")}})
-            continue
-        key = {"mode": "free", "goroutines": "single" if r["inserters"] == 1 and not r["flusher"] else "several", "overlap": r["overlap"], "symptom": symptom}
-        ck.report(key, "%s: %d inserter goroutine(s)%s, batch size %d, GOMAXPROCS %d, %d entries, %d flushes begun, calls overlapped a flush: %s -> %s %s %s" % (
-            label, r["inserters"], " + flusher" if r["flusher"] else "", r["batch"], r["procs"], r["entries"], r["flushes"], r["overlap"], symptom,
-            r.get("panic_msg", ""), {k: v for k, v in r["verdict"].items() if v}), {"key": key, "result": r, "seed": ck.seed, "label": label})
-    if race:
-        reports = 0
-        for fn in glob.glob(os.path.join(d, "race.*")):
-            with open(fn, errors="replace") as f:
-                txt = f.read()
-            for blk in txt.split("==================")[1:]:
-                if "DATA RACE" not in blk:
-                    continue
-                if "datarecording.(*sqliteWriter)" not in blk:
-                    raise core.Broken("race detector report outside the recorder (harness bug?):\n" + blk[:3000])
-                reports += 1
-        stats["race_detector_reports_in_sqliteWriter"] = reports
-    ck.cov.setdefault("free", {})[label] = dict(stats)
+    with LOCK:
+        for r in out["results"]:
+            go_ok = (not r["crashed"]) and r["verdict"]["ok"]
+            c = tl.get(r["run"])
+            if c is not None:
+                stats["judged_by_tlc"] += 1
+                if go_ok != c["persisted"] and not (c["persisted"] and r["verdict"]["symptom"] in ("field_changed", "location_changed", "reader_panic", "read_error")):
+                    raise core.Broken("%s run %s: harness verdict %s but TLC says persisted=%s" % (label, r["run"], r["verdict"], c["persisted"]))
+            stats["runs"] += 1
+            ck.cov["traces_validated_against_impl"] += 1
+            ck.cov["evaluations"] += r["entries"]
+            nontriv = r["inserters"] >= 2 or r["flushes"] >= 2
+            ck.cov["distinct_nontrivial"] += nontriv
+            stats["overlapping" if r["overlap"] else "not_overlapping"] += 1
+            if r["crashed"]:
+                symptom = panic_class(r["panic_msg"])
+            elif go_ok:
+                symptom = "ok"
+            elif r["verdict"]["symptom"] == "missing":
+                symptom = "lost"
+            else:
+                symptom = r["verdict"]["symptom"]
+            stats["outcome:" + symptom] += 1
+            if symptom == "ok":
+                if len(ck.cov["samples"]) < 6 and r["inserters"] >= 2:
+                    ck.sample({label: {k: r[k] for k in ("inserters", "flusher", "batch", "procs", "entries", "flushes", "overlap", "sample")}})
+                continue
+            key = {"mode": "free", "goroutines": "single" if r["inserters"] == 1 and not r["flusher"] else "several", "overlap": r["overlap"], "symptom": symptom}
+            ck.report(key, "%s: %d inserter goroutine(s)%s, batch size %d, GOMAXPROCS %d, %d entries, %d flushes begun, calls overlapped a flush: %s -> %s %s %s" % (
+                label, r["inserters"], " + flusher" if r["flusher"] else "", r["batch"], r["procs"], r["entries"], r["flushes"], r["overlap"], symptom,
+                r.get("panic_msg", ""), {k: v for k, v in r["verdict"].items() if v}), {"key": key, "result": r, "seed": ck.seed, "label": label})
+        if race:
+            reports = 0
+            for fn in glob.glob(os.path.join(d, "race.*")):
+                with open(fn, errors="replace") as f:
+                    txt = f.read()
+                for blk in txt.split("==================")[1:]:
+                    if "DATA RACE" not in blk:
+                        continue
+                    if "datarecording.(*sqliteWriter)" not in blk:
+                        raise core.Broken("race detector report outside the recorder (harness bug?):\n" + blk[:3000])
+                    reports += 1
+            stats["race_detector_reports_in_sqliteWriter"] = reports
+        ck.cov.setdefault("free", {})[label] = dict(stats)
     ck.note("%s: %s" % (label, dict(stats)))
     return stats
 
@@ -293,34 +330,48 @@ def run(ck):
         "the visit of the 'location' map entry in Flush's table loop (a length read) is not a model step; the controller lets it pass unlogged",
     ]
     get_binary(ck)
+    if not q:
+        get_binary(ck, race=True)
+    pool = concurrent.futures.ThreadPoolExecutor(12)
+    # independent of the model: sequential round trips (3) and free-running goroutines (4) start now
+    jobs = [pool.submit(values, ck, 1 if q else 6, 12 if q else 40),
+            pool.submit(free, ck, "free", 30 if q else 460, budget=25 if q else 150, single_every=5 if q else 8)]
+    if not q:
+        jobs.append(pool.submit(free, ck, "free-race", 150, race=True, budget=150, single_every=12))
     # 1. the model with the repaired lock scope satisfies the statement; with the pinned scope the weaker guarantees
-    rf = ck.run_tlc(["recorder"], "Recorder", "Recorder_fix_q.cfg" if q else "Recorder_fix_t.cfg", workers=4 if q else 8, timeout=3000)
+    frf = pool.submit(Locked(ck).run_tlc, ["recorder"], "Recorder", "Recorder_fix_q.cfg" if q else "Recorder_fix_t.cfg", workers=2 if q else 4, timeout=3000)
+    fh = pool.submit(Locked(ck).run_tlc, ["recorder"], "Recorder", "Recorder_hyp.cfg", workers=1, timeout=3000)
+    cfgs = [("Recorder_q.cfg", 8)] if q else [("Recorder_t.cfg", 8), ("Recorder_t2.cfg", 4), ("Recorder_t3.cfg", 2), ("Recorder_t4.cfg", 3)]
+    fms = [pool.submit(Locked(ck).run_tlc, ["recorder"], "Recorder", cfg, workers=w, timeout=3000) for cfg, w in cfgs]
+    cases = []
+    for (cfg, _), fm in zip(cfgs, fms):
+        r = fm.result()
+        if not r.ok:
+            raise core.Broken("Recorder.tla (pinned lock scope, %s) violates %s %s — the model has drifted" % (cfg, r.violated, r.error))
+        cases.append(r.tagged["CASE"])
+    rf, h = frf.result(), fh.result()
     if not rf.ok:
         raise core.Broken("Recorder.tla with LockScope=fix violates %s %s — the model of the repair is wrong" % (rf.violated, rf.error))
-    r = ck.run_tlc(["recorder"], "Recorder", "Recorder_q.cfg" if q else "Recorder_t.cfg", workers=8 if q else 16, timeout=3000)
-    if not r.ok:
-        raise core.Broken("Recorder.tla (pinned lock scope) violates %s %s — the model has drifted" % (r.violated, r.error))
-    cases = r.tagged["CASE"]
-    pred = collections.Counter(c["outcome"] for c in cases)
+    pred = collections.Counter(c["outcome"] for cs in cases for c in cs)
     ck.cov["model_final_states"] = dict(pred)
-    h = ck.run_tlc(["recorder"], "Recorder", "Recorder_hyp.cfg", workers=2, timeout=900)
     ck.note("model, pinned lock scope: %d distinct final states %s; AllPersistedOnce %s" % (
-        len(cases), dict(pred), "holds" if h.ok else "refuted by TLC (hypothesis W9, to be confirmed on the real recorder)"))
-    # 2. B3: every distinct final state's schedule on the real recorder, then seeded random gate schedules
-    tabs = sorted({s["t"] for c in cases for s in c["sched"] if s["l"] == "ins"})
-    bad = [c for c in cases if c["outcome"] != "ok"]
-    good = [c for c in cases if c["outcome"] == "ok"]
-    ck.rng.shuffle(bad)
-    ck.rng.shuffle(good)
-    nb, ng = (150, 100) if q else (2500, 1500)
-    chosen = bad[:nb] + good[:ng]
-    gated(ck, "tlc-schedules", [dict(name="tlc-%d" % i, batch=c["batch"], sched=c["sched"], outcome=c["outcome"]) for i, c in enumerate(chosen)],
-          tabs, 0, 4 if q else 8, retry=0 if len(tabs) == 1 else 12)
-    gated(ck, "random-schedules", [], ["t1", "t2"], 60 if q else 1500, 4 if q else 8)
-    # 3. sequential round trips: shapes x value classes x batch sizes x flush patterns
-    values(ck, 1 if q else 6, 12 if q else 40)
-    # 4. B2: free-running goroutines
-    free(ck, "free-single", 6 if q else 60, single=True)
-    free(ck, "free", 24 if q else 400, budget=25 if q else 150)
-    if not q:
-        free(ck, "free-race", 150, race=True, budget=120)
+        sum(pred.values()), dict(pred), "holds" if h.ok else "refuted by TLC (hypothesis W9, to be confirmed on the real recorder)"))
+    # 2. B3: distinct final states' schedules on the real recorder, then seeded random gate schedules
+    nb, ng = (150, 100) if q else (1200, 500)
+    for k, cs in enumerate(cases):
+        tabs = sorted({s["t"] for c in cs for s in c["sched"] if s["l"] == "ins"})
+        chosen = pick(ck, [c for c in cs if c["outcome"] != "ok"], nb) + pick(ck, [c for c in cs if c["outcome"] == "ok"], ng)
+        ck.cov.setdefault("schedules_replayed_of_final_states", []).append([len(chosen), len(cs)])
+        jobs.append(pool.submit(gated, ck, "tlc-schedules" + (str(k + 1) if k else ""),
+                                [dict(name="tlc-%d" % i, batch=c["batch"], sched=c["sched"], outcome=c["outcome"]) for i, c in enumerate(chosen)],
+                                tabs, 0, 4 if q else 6, retry=0 if len(tabs) == 1 else 12))
+    jobs.append(pool.submit(gated, ck, "random-schedules", [], ["t1", "t2"], 60 if q else 1500, 2 if q else 6))
+    errs = []
+    for j in jobs:
+        try:
+            j.result()
+        except Exception as e:      # let the other phases finish, then fail with the first error
+            errs.append(e)
+    pool.shutdown()
+    if errs:
+        raise errs[0]
